@@ -229,6 +229,28 @@ def run(ctx):
                     okv = not bad
                 ctx.check(okv, "BALANCE", "C05:BALANCE:VA:%s:map-end" % g.name, "in `{Variant: payload}` mode success is reached only after the closing MappingEnd was verified",
                           "%s can succeed in map mode without expect_map_end(): `{Variant: a, other: b}` style surplus is silently accepted / left in the stream" % g.name, config, ctx.where(g, ln=ln))
+        # OWN-NODE: in the bare `Variant` notation the access object has no payload node of its own — the shared stream
+        # (self.ev) holds the *following sibling*.  Every use of self.ev in a VariantAccess method is on the map_mode edge.
+        nuse = 0
+        for g in va:
+            mm_true = []
+            for sb, sym, tt, ff in bool_switches(g):
+                r = render(sym)
+                if r == "self.map_mode":
+                    mm_true.append((sb, tt))
+                elif r == "Not(self.map_mode)":
+                    mm_true.append((sb, ff))
+            uses = []
+            for b, t in g.calls():
+                with g.deep():
+                    if any("self.ev" in render(g.sym_operand(a)) for a in t["args"]):
+                        uses.append(b)
+            nuse += len(uses)
+            leak = [b for b in uses if not any(g.edge_dominates(sb, tg, b) for sb, tg in mm_true)]
+            ctx.check(not leak, "OWN-NODE", "C05:OWN-NODE:VA:%s" % g.name, "the shared event stream is touched only in `{Variant: payload}` mode (%d uses)" % len(uses),
+                      "%s reads the shared event stream (line(s) %s) in the bare `Variant` notation: the node that follows the variant name in the enclosing container is consumed as its payload (`[A, 5]` -> `[A(5)]`)" %
+                      (g.name, sorted({g.blocks[b]["term"].get("ln") for b in leak})), config, ctx.where(g))
+        ctx.floor("OWN-NODE.VA.stream-uses", nuse, 20, config)
         # SIBLING: every crate-local VariantAccess::unit_variant whose access object carries an event source
         # accepts only an absent / null-like payload
         uvs = [g for g in fx.fns.values() if g.name == "unit_variant" and g.d.get("impl_trait") == "serde::de::VariantAccess"]
